@@ -29,24 +29,93 @@ Theorem C18_sup_no_hup_accumulation : forall c s,
   quiescent c s = true -> rm s = RmIdle -> hup s = 0.
 Proof. intros c s Q R. exact (proj1 (sup_c05_no_loss c s Q R)). Qed.
 
+(* ---- helpers are counted until they have left (audit M5) ----
+   `census` - the function the acceptor compares with the goroutine count observed by runtime.Stack - counts a
+   trigger listener, a state monitor and a pending 'go ReloadAll()' sender as gone once the supervisor's context is
+   done, and a trigger-spawned Shutdown caller as gone once the shutdown body is done (their exits are not explored
+   by the acceptor: a helper's exit is observable only through its manager's join).  `census_strict` counts each of
+   them until it HAS left, by an exit step of its own (LRlsExit, LSlsExit, LMonExit, LHupExit, LSdTrigExit) or
+   through its manager's join. *)
+Theorem C18_sup_census_le_strict : forall s, census s <= census_strict s.
+Proof. exact census_le_strict. Qed.
+
+(* None of the helpers the lazy census stops counting is stuck: once the context is done every live listener,
+   monitor (after a broadcast it still owes) and pending SIGHUP sender has an ENABLED exit step, and so has every
+   trigger-spawned Shutdown caller once the shutdown body is done.  (Contracts of the model: listeners select on
+   ctx.Done in both positions - reload.go, shutdown.go -; a runnable's GetStateChan honours its context;
+   ReloadAll gives up on ctx.Done.  A GetStateChan that ignores its context would pin its monitor: outside the
+   contract, only the runtime census of the harness would show it.) *)
+Theorem C18_sup_helpers_can_exit : forall c s,
+  ctx_done s = true ->
+  (forall i, ls_finished (get LsAbsent (rls s) i) = false -> step c s (LRlsExit i) <> None) /\
+  (forall i, ls_finished (get LsAbsent (sls s) i) = false -> step c s (LSlsExit i) <> None) /\
+  (forall i, mon_finished (mon_at s i) = false ->
+             step c s (LMonExit i) <> None \/ step c s (LMonBcast i) <> None) /\
+  (hup s <> 0 -> step c s LHupExit <> None) /\
+  (sd s = SdDone -> sd_trig s <> 0 -> step c s LSdTrigExit <> None).
+Proof. exact sup_c18_helpers_can_exit. Qed.
+
+(* After a clean termination, once no helper has an exit step left to take, NOTHING is left - strict census 0. *)
+Theorem C18_sup_clean_strict : forall c s r,
+  reachable_sup c s -> main s = MReturned r -> sd_timed_out s = false -> callers s = [] ->
+  forallb sub_closed (subs s) = true ->
+  (forall l, helper_exit l = true -> step c s l = None) ->
+  census_strict s = 0.
+Proof. exact sup_c18_clean_strict. Qed.
+
+(* ... and the strict census obeys the same configuration bound while running. *)
+Theorem C18_sup_bounded_strict : forall c s,
+  reachable_sup c s ->
+  census_strict s <= 5 + 4 * nrun c + hup s + sd_trig s + length (callers s)
+                     + count_if (fun b => negb (sub_closed b)) (subs s).
+Proof. exact sup_c18_bounded_strict. Qed.
+
 Print Assumptions C18_sup_clean.
 Print Assumptions C18_sup_bounded.
 Print Assumptions C18_sup_no_hup_accumulation.
+Print Assumptions C18_sup_census_le_strict.
+Print Assumptions C18_sup_helpers_can_exit.
+Print Assumptions C18_sup_clean_strict.
+Print Assumptions C18_sup_bounded_strict.
 
 Definition c18_cfg : config :=
   {| specs := [ {| stateable := true; reloadable := true; rsender := true; ssender := true;
                    stop_style := StopUntilRunDone; run_exit := ExitOnSignal; held_sub := false |} ];
      startup_may_fire := false; shutdown_may_fire := false |}.
 Definition c18_sched : list label :=
-  [LLaunch 0; LRunStore 0; LRunCall 0; LMonSub 0; LMonRecv 0; LPoll 0 true; LGateDecide 0;
+  [LRunEnter; LRunEntered; LLaunch 0; LRunStore 0; LRunCall 0; LMonSub 0; LMonRecv 0; LPoll 0 true; LGateDecide 0;
    LCall 1 (OpSignal SigHup); LSigPut 1; LRet 1 (OpSignal SigHup); LReapSig; LRmAccept SndHup;
    LReloadCall 0; LReloadRet 0;
    LTrigS 0; LTrigRecvS 0; LStopCall 0; LRunRet 0 None; LStopRet 0; LSdCancel;
    LRmCtx; LRmExit; LSdmExit; LStmExit; LSdWgDone; LReapCtx; LMainShutdown; LMainReturn ResNil].
 Example C18_ex_clean_run :
-  exists s, run (step c18_cfg) (init c18_cfg) c18_sched = Some s /\ census s = 0
-            /\ census (init c18_cfg) = 7.
-Proof. eexists. split; [vm_compute; reflexivity|]. split; vm_compute; reflexivity. Qed.
+  exists s s1, run (step c18_cfg) (init c18_cfg) c18_sched = Some s /\ census s = 0
+            /\ census (init c18_cfg) = 0
+            /\ run (step c18_cfg) (init c18_cfg) (firstn 2 c18_sched) = Some s1 /\ census s1 = 7.
+Proof.
+  eexists. eexists. split; [vm_compute; reflexivity|]. split; [vm_compute; reflexivity|].
+  split; [vm_compute; reflexivity|]. split; vm_compute; reflexivity.
+Qed.
+
+(* the strict census of the same run: the Shutdown caller spawned by the trigger listener is still there when Run()
+   has returned (lazy census 0, strict census 1); it has an enabled exit, after which nothing is left and no
+   helper exit is enabled - all hypotheses of C18_sup_clean_strict at once *)
+Example C18_ex_strict :
+  exists s s', run (step c18_cfg) (init c18_cfg) c18_sched = Some s /\ census s = 0 /\ census_strict s = 1 /\
+               step c18_cfg s LSdTrigExit = Some s' /\ census_strict s' = 0 /\
+               reachable_sup c18_cfg s' /\ main s' = MReturned ResNil /\ sd_timed_out s' = false /\
+               callers s' = [] /\ forallb sub_closed (subs s') = true /\
+               (forall l, helper_exit l = true -> step c18_cfg s' l = None).
+Proof.
+  eexists. eexists. split; [vm_compute; reflexivity|]. split; [vm_compute; reflexivity|].
+  split; [vm_compute; reflexivity|]. split; [vm_compute; reflexivity|]. split; [vm_compute; reflexivity|].
+  split; [exists (c18_sched ++ [LSdTrigExit]); vm_compute; reflexivity|].
+  split; [reflexivity|]. split; [reflexivity|]. split; [reflexivity|]. split; [reflexivity|].
+  intros l Hl. destruct l; try discriminate Hl; unfold step; cbn [step0];
+    repeat match goal with |- context [match ?i with _ => _ end] => is_var i; destruct i end; vm_compute;
+    repeat (try reflexivity; match goal with |- context [match ?i with _ => _ end] => is_var i; destruct i; vm_compute end);
+    try reflexivity.
+Qed.
 
 (* ====================================================================================================
    C18 - composite leg (appended; model coq/model/Composite.v, proofs coq/proofs/CompositeCensus.v).
